@@ -9,10 +9,6 @@ Record carrier_laws (K : carrier) : Prop := {
   add_0_l : forall a : K, add zero a = a
 }.
 
-Definition bigsum {K : carrier} {A} (f : A -> K) (l : list A) : K := tsum (map f l).
-
-(* Σ_{q < L} f q *)
-Definition isum {K : carrier} (L : nat) (f : nat -> K) : K := bigsum f (seq 0 L).
 
 Section Sums.
 Context {K : carrier} (HK : carrier_laws K).
